@@ -721,6 +721,67 @@ func runSplit(s scen) *result {
 			res.fail("split-partial-verified", "aggregate without one split signature verifies", s)
 		}
 	}
+	// composition: every split key (the last one too) is a complete key of its own -- its serialized
+	// secret is its scalar, so it can be reloaded, threshold-shared and split again
+	for i, sp := range splits {
+		one := s
+		own, _ := sp.Sign(hash)
+		_, le := privDec(sp)
+		var sk hb.SecretKey
+		if err := sk.SetLittleEndian(le); err != nil {
+			res.fail("split-key-bytes-not-its-secret", fmt.Sprintf("split key %d of %d: private key bytes are not a scalar: %v", i, s.N, err), one)
+			continue
+		}
+		if sk.GetPublicKey().SerializeToHexStr() != sp.GetPublicKey() {
+			res.fail("split-key-bytes-not-its-secret", fmt.Sprintf("split key %d of %d: the public key of its private key bytes is not its public key", i, s.N), one)
+		}
+		// (a) WriteKeys -> ReadKeys
+		var buf bytes.Buffer
+		if err := sp.WriteKeys(&buf); err != nil {
+			panic(err)
+		}
+		re := encryption.NewBLS0ChainScheme()
+		if err := re.ReadKeys(&buf); err != nil {
+			res.fail("split-key-reload-failed", fmt.Sprintf("split key %d of %d: %v", i, s.N, err), one)
+		} else {
+			sg, _ := re.Sign(hash)
+			if ok, _ := sp.Verify(sg, hash); !ok || sg != own {
+				res.fail("split-key-reloaded-signs-differently", fmt.Sprintf("split key %d of %d written and read back signs a signature that does not verify under its public key", i, s.N), one)
+			}
+		}
+		// (b) threshold-share the split key, reconstruct from T shares
+		const t2, n2 = 2, 3
+		if shs, err := encryption.BLS0GenerateThresholdKeyShares(t2, n2, sp); err != nil {
+			res.fail("split-key-threshold-shares-error", err.Error(), one)
+		} else {
+			rc := encryption.NewBLS0ChainReconstruction(t2, n2)
+			for _, sh := range shs[n2-t2:] {
+				sg, _ := sh.Sign(hash)
+				if err := rc.Add(sh, sg); err != nil {
+					panic(err)
+				}
+			}
+			got, err := rc.Reconstruct()
+			if ok, _ := sp.Verify(got, hash); err != nil || !ok || got != own {
+				res.fail("split-key-threshold-signature-not-verified", fmt.Sprintf("split key %d of %d shared 2-of-3: the reconstructed signature does not verify under the split key's public key", i, s.N), one)
+			}
+		}
+		// (c) split the split key again
+		if leaves, err := sp.(*encryption.BLS0ChainScheme).GenerateSplitKeys(2); err != nil {
+			res.fail("split-key-resplit-error", err.Error(), one)
+		} else {
+			var ls []string
+			for _, lf := range leaves {
+				sg, _ := lf.Sign(hash)
+				ls = append(ls, sg)
+			}
+			ag, _ := key.AggregateSignatures(ls)
+			if ok, _ := sp.Verify(ag, hash); !ok || ag != own {
+				res.fail("split-key-resplit-not-its-signature", fmt.Sprintf("split key %d of %d split again: the leaves' aggregate is not the split key's signature", i, s.N), one)
+			}
+		}
+		res.hist["split-key-composed"]++
+	}
 	res.coq = fmt.Sprintf("(Build_dkc_case ([]) ([]) ([]) ([]) ([]) (0%%nat) ([]) ([]) ([%s]))",
 		pair(keyDec, vh.List(ks)))
 	return res
